@@ -48,6 +48,11 @@ func (o *RunOut) addFS(fs *simos.FS) {
 	}
 }
 
+func (o *RunOut) addDriver(d *Driver) {
+	d.mergeProbes()
+	o.addProbes(d.Probes)
+}
+
 func (o *RunOut) addProbes(m map[string]int) {
 	for k, v := range m {
 		o.Probes[k] += v
